@@ -1,43 +1,77 @@
 #!/usr/bin/env python3
 """Regenerates MANIFEST.json from the table below (keeps it schema-valid)."""
-import json, os
+import json, os, subprocess
 ROOT = os.path.dirname(os.path.abspath(__file__))
 props = [json.loads(l) for l in open(os.path.join(ROOT, "properties.jsonl"))]
 
-# id -> (technique, level text, level note, design ref)
+REF = "Trusted: regex-syntax/regex-automata (the engine of the regex crate, same version as in the lockfile) as the definition of a pattern's language - the property names the regex crate as ground truth; the harness' own graph interpreter for tier G (tier X, the compiled lexers, is the arbiter)."
+
+# id -> (engine, technique, level text, level note, design ref)
 CLAIMED = {
- "C01": ("property-based testing: proptest-generated definitions x model-guided covering inputs + random walks, differential against a reference lexer (regex-automata per-pattern DFAs / exact literals)",
-         "Exploration: thousands of random definitions per run; for each, inputs covering every (graph state x reference state, byte-class boundary) pair plus random walks are lexed and every attempt is compared (winner, span) with the reference. Absence is not established; coverage is what the evidence file measures.",
-         "Trusted: regex-syntax/regex-automata as the definition of a pattern's language (the property names the regex crate as ground truth); harness graph interpreter for tier G.",
-         "7/C01"),
- "C02": ("property-based testing: same generator, oracle = longest viable prefix (co-reachability on per-pattern DFAs) + span rule",
-         "Exploration: every error attempt of every generated (definition,input) is compared with the documented span rule computed independently from the pattern DFAs.",
-         "Trusted: regex-automata DFAs for viability; UTF-8 rounding rule as stated in the property.", "7/C02"),
- "C03": ("property-based testing: generated definitions x inputs; tiling/termination invariants + structural invariants of the captured graph",
-         "Exploration: iterator termination (step bound), span tiling with skipped regions observed from the subject, repeated None, and structural graph invariants on every accepted definition.",
-         "Trusted: the step bound 2*len+4 as a sound termination watchdog.", "7/C03"),
+ "C01": ("vgraph+subjects", "property-based differential testing: proptest definitions x model-guided transition-cover inputs + proptest random walks, per-attempt comparison with a reference lexer; captured graph (tier G) and compiled lexers in 4 feature configurations (tier X)",
+         "Exploration. Thousands of random definitions per run (tier G) and a compiled subject set in all four code generator/runtime configurations (tier X); every attempt of every lexing is compared (winner, span) with the reference built from the pattern sources. Absence is not established.", REF, "7/C01"),
+ "C02": ("vgraph+subjects", "property-based testing: same generators; oracle = longest viable prefix (co-reachability on per-pattern DFAs) + span rule with char-boundary rounding",
+         "Exploration. Every error attempt of every generated (definition,input) is compared with the documented span rule computed independently; tiers G and X (4 configurations).", REF, "7/C02"),
+ "C03": ("vgraph+subjects", "property-based testing: tiling/termination invariants over generated (definition,input) pairs with skipped regions observed from the subject, plus structural invariants of every captured graph",
+         "Exploration. Step-bounded iteration, strictly increasing non-empty spans, gaps == logged skips, end at len, repeated None; root records nothing / no eoi edge after eoi edge; empty-matching definitions are generated in C19's must-reject classes.", "Trusted: the bound 2*len+4 next() calls as termination watchdog.", "7/C03"),
+ "C04": ("subjects", "property-based testing on compiled str-mode lexers: char-boundary predicate on every observable span before slice()/remainder() are called and compared",
+         "Exploration over generated Unicode-heavy definitions x valid UTF-8 inputs in 4 configurations. The acceptance clause (patterns that can match invalid UTF-8 are rejected in str mode) is exercised through byte-class items in the generators: such definitions never reach the str subjects.", "Trusted: Rust's str::is_char_boundary.", "7/C04"),
+ "C05": ("apicheck+subjects", "property-based testing + sanitizer: Source::read model check (proptest, ASan builds), compiled lexers on exactly sized inputs, default-vs-forbid_unsafe build differential on full observation records",
+         "Exploration. read(): Some iff offset+N<=len without overflow, bytes equal (4 builds + 2 ASan builds). Lexing: no panic in any configuration; every observation record identical between default and forbid_unsafe builds (tail-call and state-machine).", "Trusted: ASan redzones for out-of-allocation reads (sources are exactly sized heap allocations in the read check).", "7/C05"),
+ "C06": ("subjects", "differential testing between builds: identical generated sources compiled with and without state_machine_codegen; full observation records (items, spans, error codes, logs, partial-mode runs) compared byte for byte",
+         "Exploration. Equivalence clause decided by build-against-build comparison over the covering + random inputs of every subject. The stack-bound clause is not yet checked in this revision.", "Trusted: deterministic input generation (same seed => same inputs in both builds).", "7/C06"),
+ "C07": ("subjects", "property-based testing on compiled lexers: every split point of every input; partial items must be a leading run of the one-shot items of the input and of generated alternative continuations; position and chunked-history relations",
+         "Exploration in 4 configurations; soundness (a), position (b) and chunked history (d) relations are differential against the same build. The completeness clause (yield as soon as determined) is not yet checked in this revision.", "Trusted: nothing beyond the subject itself (same-build differential).", "7/C07"),
+ "C08": ("vgraph", "property-based testing with a product-automaton oracle: breadth-first walk of the product of per-pattern reference matchers computing top-priority tie sets; accept/reject and reported sets compared",
+         "Exploration over thousands of overlap-dense definitions; both verdicts frequent (about 30% rejected).", REF, "7/C08"),
+ "C09": ("vgraph", "property-based testing: captured leaf priority vs the statement's rule on the harness' own parse, cross-checked by a shortest-path (0-1 BFS) computation of the minimum char count on the pattern DFA; literal/regex pair consequence",
+         "Exploration over generated patterns (str/bytes, tokens, skips, explicit priorities) and generated (literal, regex matching it) pairs.", REF, "7/C09"),
+ "C10": ("vgraph", "property-based testing: literal family with metacharacters / cased non-ASCII / arbitrary bytes, case-toggled inputs; oracle = exact bytes or regex crate language of the harness-escaped literal under (?i); flag-less twin for 'nothing else changes'",
+         "Exploration (tier G on the captured graph).", REF, "7/C10"),
+ "C11": ("vgraph", "property-based + metamorphic testing: subpattern DAGs rendered with references and AST-inlined; reference lexer from the inlined text; generate() equality with the inlined definition; planted undefined/forward references must be rejected",
+         "Exploration (tier G).", REF, "7/C11"),
+ "C14": ("apicheck", "model-based (stateful) property testing: proptest op histories interpreted against the real Lexer and a reference model in lock-step; next() expected from a fresh lexer over the suffix",
+         "Exploration over histories of {next, bump, clone, morph, spanned, accessors, extras} on fixed definition pairs (str and bytes, ordinary and partial) in 4 builds.", "Trusted: fixed hand-written definitions; fresh-lexer-over-suffix as the meaning of next().", "7/C14"),
+ "C15": ("apicheck", "property-based testing with an arithmetic model (checked addition + boundary predicate) of bump, under catch_unwind, in debug/release x default/forbid_unsafe + ASan builds",
+         "Exploration over boundary-focused bump amounts incl. wrap-around, repeated bumps and use after a caught panic.", "Trusted: catch_unwind observes the panic; span() is read before slice()/remainder() are called.", "7/C15"),
+ "C16": ("vgraph+cli", "repeated-run differential: generate() and the captured graph on freshly spawned threads and in child processes, logos-cli (both code generators) run repeatedly and --check'ed; byte equality",
+         "Exploration; hash seeds are sampled per thread/process.", "Trusted: std RandomState gives fresh keys per thread/process.", "7/C16"),
+ "C17": ("vgraph+cli", "property-based + model-based testing of the logos-cli binary: generated enum sources, syn-computed expected enum, generate() for the impl, write/check/tamper histories against a file-state model",
+         "Exploration over enum sources and file histories.", "Trusted: syn for the independent expected enum.", "7/C17"),
+ "C18": ("vgraph", "metamorphic property testing: every permutation of named attribute arguments and dependency-respecting permutations of #[logos(...)] items vs the canonical order (acceptance and generate() equality)",
+         "Exploration (tier G).", "Trusted: generate() string equality as lexer equivalence (sufficient, not necessary; skips reordering uses leaf multiset + automaton size).", "7/C18"),
+ "C19": ("vgraph+rustc", "property-based fuzzing of the derive with structured attribute soup under catch_unwind (library path) and through rustc with the real proc-macro on stable (JSON diagnostics), plus constructively generated must-reject classes",
+         "Exploration. No panic in either path; must-reject => compile_error; library diagnostics reappear in rustc's output; accepted => output parses and graph invariants hold.", "Trusted: rustc's 'proc-macro derive panicked' diagnostic as panic detector in tier P.", "7/C19"),
+ "C20": ("subjects", "property-based testing with a read-trace hook: per attempt, read offsets monotone, reads linear in bytes examined, first read at the attempt start; compiled lexers in 4 configurations",
+         "Exploration over the core subject family; the adversarial long-input family is not yet included in this revision.", "Trusted: the verif_hooks trace records every LexerInternal::read.", "7/C20"),
 }
-PENDING = "check not built yet in this revision of /verif (design in DESIGN.md section 7); will be claimed once its check exists"
+PENDING = {
+ "C12": "check not built yet in this revision of /verif (twin family planned, DESIGN.md section 7/C12)",
+ "C13": "check not built yet in this revision of /verif (callback family planned, DESIGN.md section 7/C13)",
+}
 
 checks = []
 na = []
 for p in props:
     i = p["id"]
     if i in CLAIMED:
-        tech, text, note, ref = CLAIMED[i]
+        eng, tech, text, note, ref = CLAIMED[i]
         checks.append({
             "property_id": i,
             "quick_cmd": f"./check {i} --tier quick",
             "thorough_cmd": f"./check {i} --tier thorough",
             "evidence_file": f"/verif/evidence/{i}.json",
             "replay_cmd_template": f"./check {i} --replay {{path}}",
-            "engine": "vgraph",
+            "engine": eng,
             "level_claimed": {"category": "exploration", "text": text, "design_ref": ref},
             "level_note": note,
             "technique": tech,
         })
     else:
-        na.append({"property_id": i, "reason": PENDING})
+        na.append({"property_id": i, "reason": PENDING.get(i, "no check in this revision")})
+
+hooks = subprocess.check_output(["git", "-C", "/repo", "log", "--format=%h %s"], text=True).splitlines()
+hook_commits = [l.split()[0] for l in hooks if l.split(" ", 1)[1].startswith("verif hook")]
 
 m = {
  "version": 1,
@@ -46,15 +80,17 @@ m = {
   "guard": "verif_hooks",
   "enable": "cargo features logos-codegen/verif_hooks (graph capture) and logos/verif_hooks (read trace); the harness crates enable them through path dependencies on /repo",
   "baseline_off_cmd": "cd /repo && cargo test --workspace --no-fail-fast --offline",
-  "source_commits": ["f0effc6", "6621ab7"],
+  "source_commits": hook_commits,
   "add_only": True,
  },
  "engines": [
-  {"name": "vgraph", "path": "harness/vgraph", "serves_properties": sorted(CLAIMED), "kind_free_text": "tier G: proptest-driven in-process checks linking logos-codegen (capture hook) and the reference model"},
+  {"name": "vgraph", "path": "harness/vgraph", "serves_properties": ["C01", "C02", "C03", "C08", "C09", "C10", "C11", "C16", "C17", "C18", "C19"], "kind_free_text": "tier G/L/P: proptest-driven in-process checks linking logos-codegen (capture hook) and the reference model; drives logos-cli and rustc"},
+  {"name": "subjects", "path": "harness/subjgen + harness/subject-rt (generated crates under work/subjects)", "serves_properties": ["C01", "C02", "C03", "C04", "C05", "C06", "C07", "C20"], "kind_free_text": "tier X: generated #[derive(Logos)] subjects compiled in 4 feature configurations, proptest drivers inside the compiled binary, build-against-build dumps"},
+  {"name": "apicheck", "path": "harness/apicheck", "serves_properties": ["C05", "C14", "C15"], "kind_free_text": "tier A: fixed definitions, proptest histories, debug/release x default/forbid_unsafe + ASan"},
  ],
  "checks": checks,
  "not_applicable": na,
- "notes": "All checks: ./check <ID> [--tier quick|thorough] [--replay F]; seed from VERIF_SEED. Exit 2 = harness trouble/inconclusive, never a violation.",
+ "notes": "All checks: ./check <ID> [--tier quick|thorough] [--replay F]; seed from VERIF_SEED. Exit 2 = harness trouble/inconclusive, never a violation. Genuine defects found and repaired are listed in known_findings.json (status fixed).",
 }
 json.dump(m, open(os.path.join(ROOT, "MANIFEST.json"), "w"), indent=1)
 print("claimed", len(checks), "pending", len(na))
